@@ -180,6 +180,7 @@ Fixpoint rows_loop (E : env) (fuel : nat) (nech ncol total : Z) (iech pos : Z) (
     end
   else Ret (Some (frev acc)) m.
 
+Definition zero : num := Num 0.
 (* _loadData(ELoadBy::SAMPLE): array[icol * nech + iech] = tab[icol + ncol * iech] *)
 Definition load_data (ncol nech : Z) (tab : list num) : list num :=
   flat_map (fun icol => map (fun iech => znth tab (icol + ncol * iech) NA) (zseq nech)) (zseq ncol).
@@ -187,7 +188,9 @@ Definition load_data (ncol nech : Z) (tab : list num) : list num :=
 Definition db_counts_ok (E : env) (ncol nech : Z) (m : mon) : bool :=
   count_ok E ncol m && count_ok E nech m && count_ok E (ncol * nech) m.
 
-Definition db_deserialize (E : env) (m : mon) : res (option db) :=
+(* [gt] = None for a Db; for a DbGrid, Some (Grid::getNTotal() as computed in 32 bits, exact product of nx):
+   DbGrid::resetDims(ncol, nech) ignores its second argument and uses the grid size. *)
+Definition db_deserialize (E : env) (gt : option (Z * Z)) (m : mon) : res (option db) :=
   do oncol, m1 <- read_int m;
   match oncol with None => Ret None m1 | Some ncol =>
   do onech, m2 <- read_int m1;
@@ -209,14 +212,20 @@ Definition db_deserialize (E : env) (m : mon) : res (option db) :=
           match decode_locs locs with
           | None => Ret (Some db_empty) m6        (* "return true" on a refused locator: nothing loaded *)
           | Some tab =>
-              (* resetDims(ncol, nech) *)
+              (* candidate fix C09_4: a DbGrid refuses a number of samples that is not the grid size *)
+              if fix_grid (e_cfg E) && match gt with Some (_, exact) => negb (nech =? exact) | None => false end then Ret None m6 else
+              (* resetDims(ncol, nech) — virtual: DbGrid::resetDims replaces nech by the grid size *)
+              let nech' := match gt with Some (n32, _) => n32 | None => nech end in
+              let total' := wrap32 (nech' * ncol) in
               do _, m7 <- alloc E 15 ncol 36 m6;
-              do _, m8 <- (if 0 <? total then alloc E 15 total 8 m7 else Ret tt m7);
-              (* _loadData *)
-              if (0 <? ncol) && (0 <? total) && negb (total =? nech * ncol) then Bad (OOB 17) else
-              let arr := if (0 <? ncol) && (0 <? total) then load_data ncol nech (map value_double ws) else [] in
+              do _, m8 <- (if 0 <? total' then alloc E 15 total' 8 m7 else Ret tt m7);
+              (* _loadData: for (icol < ncol) for (iech < _nech) array[icol * _nech + iech] = tab[icol + ncol * iech] *)
+              if (0 <? ncol) && (0 <? total) && (0 <? nech') && (total <? ncol * nech') then Bad (OOB 17) else
+              if (0 <? ncol) && (0 <? total) && (0 <? nech') && negb (total' =? nech' * ncol) then Bad (OOB 17) else
+              let arr := if (0 <? ncol) && (0 <? total) && (0 <? nech') then load_data ncol nech' (map value_double ws)
+                         else if 0 <? total' then repeat zero (Z.to_nat total') else [] in
               do nl, m9 <- apply_cols E ncol 0 names tab (map new_name (map (Z.add 1) (zseq ncol))) no_loc m8;
-              Ret (Some (mkDb ncol nech (fst nl) (zseq ncol) (snd nl) arr)) m9
+              Ret (Some (mkDb ncol nech' (fst nl) (zseq ncol) (snd nl) arr)) m9
           end
       end
   | _, _ => Ret None m5
@@ -228,7 +237,6 @@ Record grid := mkGrid { g_ndim : Z; g_nx : list Z; g_x0 : list num; g_dx : list 
 Record dbgrid := mkDbGrid { dg_grid : grid; dg_db : db }.
 
 Definition num_neg (x : num) : bool := match x with NA => false | Num q => negb (Qle_bool 0 q) end.
-Definition zero : num := Num 0.
 (* Grid::resetFromVector *)
 Definition grid_define (ndim : Z) (nx : list Z) (x0 dx ang : list num) : grid :=
   let n := Z.to_nat ndim in
@@ -258,6 +266,9 @@ Fixpoint grid_header (fuel : nat) (ndim idim : Z) (acc : list (Z * num * num * n
   else Ret (true, frev acc) m.
 
 Definition prodZ (l : list Z) : Z := fold_right Z.mul 1 l.
+(* Grid::getNTotal: int product, 0 when there is no dimension *)
+Definition ntotal32 (ndim : Z) (nx : list Z) : Z := if ndim <=? 0 then 0 else fold_left (fun a v => wrap32 (a * v)) nx 1.
+Definition ntotal_exact (ndim : Z) (nx : list Z) : Z := if ndim <=? 0 then 0 else prodZ nx.
 
 Definition dbgrid_deserialize (E : env) (m : mon) : res (option dbgrid) :=
   do ondim, m1 <- read_int m;
@@ -276,10 +287,9 @@ Definition dbgrid_deserialize (E : env) (m : mon) : res (option dbgrid) :=
   let nx := map (fun r => fst (fst (fst r))) rows in
   let g := grid_define ndim nx (map (fun r => snd (fst (fst r))) rows) (map (fun r => snd (fst r)) rows) (map snd rows) in
   if fix_grid (e_cfg E) && (existsb (fun v => v <? 0) nx || existsb num_neg (g_dx g)) then Ret None m5 else
-  do odb, m6 <- db_deserialize E m5;
+  do odb, m6 <- db_deserialize E (Some (ntotal32 ndim nx, ntotal_exact ndim nx)) m5;
   match odb with
-  | Some d => if fix_grid (e_cfg E) && negb (d_nech d =? prodZ nx) then Ret None m6
-              else Ret (Some (mkDbGrid g d)) m6
+  | Some d => Ret (Some (mkDbGrid g d)) m6
   | None => if fix_grid (e_cfg E) then Ret None m6 else Ret (Some (mkDbGrid g db_empty)) m6   (* "ret && Db::_deserialize(...)": result dropped *)
   end.
 
@@ -426,7 +436,7 @@ Definition tag_Polygons : list Z := [80; 111; 108; 121; 103; 111; 110].
 Definition tag_PolyElem : list Z := [80; 111; 108; 121; 69; 108; 101; 109].
 Definition tag_PolyLine2D : list Z := [80; 111; 108; 121; 76; 105; 110; 101; 50; 68].
 Definition tag_Faults : list Z := [70; 97; 117; 108; 116; 115].
-Definition load_Db := create_from_nf tag_Db db_deserialize.
+Definition load_Db := create_from_nf tag_Db (fun E m => db_deserialize E None m).
 Definition load_DbGrid := create_from_nf tag_DbGrid dbgrid_deserialize.
 Definition load_Table := create_from_nf tag_Table table_deserialize.
 Definition load_Polygons := create_from_nf tag_Polygons polygons_deserialize.
